@@ -318,3 +318,39 @@ Theorem C15_seq_agree_implies_spec_ok : forall l,
   seq_agrees l = true -> seq_spec_ok l = true.
 Proof. exact seq_agree_implies_spec_ok. Qed.
 Print Assumptions C15_seq_agree_implies_spec_ok.
+
+(** ** What the specification does not look at: the cutting of character data
+
+    Where the boundaries between adjacent pieces of character data fall (text,
+    CDATA section, entity reference) is not part of the element tree.  Every
+    specification verdict compares streams in the normal form [norm_stream]
+    (declaration attributes dropped, each maximal run of character data one
+    token, empty runs none), trees in the corresponding normal form [norm]. *)
+
+(** The normal form is one: normalising again changes nothing. *)
+Theorem C15_norm_stream_idem : forall l, norm_stream (norm_stream l) = norm_stream l.
+Proof. exact norm_stream_idem. Qed.
+Print Assumptions C15_norm_stream_idem.
+
+(** Cutting a piece of character data in two, anywhere, is not seen. *)
+Theorem C15_norm_stream_segmentation : forall l1 s1 s2 l2,
+  norm_stream (l1 ++ TText (s1 ++ s2) :: l2) = norm_stream (l1 ++ TText s1 :: TText s2 :: l2).
+Proof. exact norm_stream_segmentation. Qed.
+Print Assumptions C15_norm_stream_segmentation.
+
+(** "Same element tree" ([same_tree], [same_stream], used by every clause of
+    [doc_spec_ok]) is equality of the token streams in that normal form. *)
+Theorem C15_same_forest_norm_stream : forall f g,
+  same_forest f g = list_eqb token_eqb (norm_stream (forest_tokens f)) (norm_stream (forest_tokens g)).
+Proof. exact same_forest_norm_stream. Qed.
+Print Assumptions C15_same_forest_norm_stream.
+
+(** The specification of the interleaving stage ([calls_ok]: what a reader has
+    delivered so far is a beginning of the document's stream in normal form,
+    all of it at io.EOF) accepts what the model's reader delivers after any
+    number of calls — the unchanged code, which keeps the pieces apart, meets
+    it, and so does a reader that joins them. *)
+Theorem C15_interleaved_spec_accepts_model : forall l k,
+  calls_ok l (firstn k (map (fun x => CTok (Some x)) (strip_stream l) ++ repeat CEof k)) = true.
+Proof. exact calls_ok_model. Qed.
+Print Assumptions C15_interleaved_spec_accepts_model.
